@@ -169,5 +169,6 @@ func VxC07Names() {
 	vxReach("names")
 	ok, _, err := vxDecide(symbols.MatchPrefix, nameC, patC)
 	s, p := "/"+string(sb), "/"+string(pb)
-	vxAssert(err == nil && ok == (vxHasPrefix(s, p) && len(s) > len(p)), "match-prefix")
+	// a name lies below the prefix p iff it starts with p followed by a path separator
+	vxAssert(err == nil && ok == vxHasPrefix(s, p+"/"), "match-prefix")
 }
